@@ -587,7 +587,7 @@ sim::Registrar r1(kSweep), r2(kMulti);
 const char* const kAssumptions[] = {
   "A faulted run stops at the first error the API reports (return value, invalid label, null annotation or the attached error handler); continuing to drive an object after it reported out-of-memory is outside the statement.",
   "A call that completes although an allocation failed must produce exactly the failure-free output; where the implementation documents a request as optional (hash growth, reserve hints, gap bookkeeping, log formatting) that is what happens.",
-  "Container / constant pool / string scripts under dense random faults are covered by the C18 and C19 checks rather than by this sweep.",
+  "The container workload of this sweep is a fixed script per seed (raw arena requests, two vectors, a constant pool, a heap string over rounds with resets); dense random faults against reference models of every container are the business of the C18 and C19 checks.",
   nullptr};
 const char* const kReal[] = {"asmjit CodeHolder, Assembler/Builder/Compiler for x86-32, x86-64, AArch64, RA passes, flatten/relocate/copy, JitRuntime + JitAllocator + VirtMem, generated x86-64 code executed on the host (jit-install workload)", nullptr};
 const char* const kStub[] = {"H1 arena fault point, SimHeap (malloc/realloc failure, junk fill, realloc policy), SimVM (mmap/memfd/ftruncate/munmap failure, placement), H3/H4 knobs", nullptr};
